@@ -262,3 +262,21 @@ class Report:
             self.prop, self.tier, self.cov["evaluations"], len(self.disagreements), len(seen_known),
             len(violations), time.time() - self.t0))
         return 1 if violations else 0
+
+
+# ------------------------------------------------------------------ Apalache
+def apalache_inductive(module, inv="IndInv", timeout=900):
+    """Discharges `inv` of spec/<module>.tla as an inductive invariant with Apalache: Init => inv (length 0) and
+    IndInit /\\ Next => inv' (length 1), constants initialised by ConstInit.  A failure is a tool error: it would be a
+    statement about the specification, not about the implementation."""
+    d = workdir("apa")
+    try:
+        shutil.copy(os.path.join(tlcrun.SPEC, module + ".tla"), d)
+        for name, extra in (("base", ["--init=Init", "--length=0"]), ("step", ["--init=IndInit", "--length=1"])):
+            cmd = ["timeout", str(timeout), "apalache-mc", "check", "--cinit=ConstInit", "--inv=" + inv,
+                   "--out-dir=" + os.path.join(d, "out")] + extra + [module + ".tla"]
+            p = subprocess.run(cmd, cwd=d, stdout=subprocess.PIPE, stderr=subprocess.STDOUT, text=True)
+            if "The outcome is: NoError" not in p.stdout:
+                raise ToolError("Apalache did not discharge the %s case of %s.%s:\n%s" % (name, module, inv, p.stdout[-1500:]))
+    finally:
+        shutil.rmtree(d, ignore_errors=True)
